@@ -7,6 +7,9 @@ mod props;
 mod seq;
 mod trace;
 mod crash;
+mod sched;
+mod lin;
+mod conc;
 
 use env::Tier;
 
@@ -31,6 +34,15 @@ fn main() {
         let lane: u64 = args[4].parse().unwrap_or(0);
         let count: u32 = args[5].parse().unwrap_or(1);
         let code = props::c17::worker(seed, lane, count, &args[6]);
+        env::cleanup_scratch();
+        std::process::exit(code);
+    }
+    if matches!(id.as_str(), "C07" | "C08" | "C11D" | "C13D" | "C14D" | "C18" | "C20") && args.get(2).map(|s| s.as_str()) == Some("--worker") {
+        let seed: u64 = args[3].parse().unwrap_or(1);
+        let lane: u64 = args[4].parse().unwrap_or(0);
+        let count: u32 = args[5].parse().unwrap_or(1);
+        let wtier = if args.get(7).map(|s| s.as_str()) == Some("thorough") { Tier::Thorough } else { Tier::Quick };
+        let code = props::concprops::worker(&id, seed, lane, count, &args[6], wtier);
         env::cleanup_scratch();
         std::process::exit(code);
     }
